@@ -179,7 +179,7 @@ def check_state(ctx, main, label, log):
             return 'a pump does not use the edited slurry', 'sections'
     # the System tab's minimum-friction and operating-point boxes show the values of the pipeline that is selected NOW (checked after a pipeline or unit
     # selection and on the event after it; the searches behind them are the expensive part of a session)
-    recent = [l for l in log[-2:] if l.startswith(('pipeline', 'units'))] or label.startswith(('pipeline', 'units'))
+    recent = [l for l in log[-2:] if l.startswith(('pipeline', 'units'))] or label.startswith(('pipeline', 'units')) or '[system boxes]' in label
     if recent:
         try:
             ST_ = main.SystemTab
@@ -354,11 +354,21 @@ def monitor(ctx, extended=False):
                 [('Cv_input', 'nan'), ('D50_input', 'nan'), ('rhos_input', 'nan'), ('Dp_input', 'nan')],
                 # the edges of the range the Cv box documents (0.01 .. 0.5), reached by entry and then pushed with the buttons
                 [('Cv_input', '0.012'), ('click', 'Cv_down_button'), ('click', 'Cv_down_button'), ('click', 'Cv_up_button')],
-                [('Cv_input', '0.498'), ('click', 'Cv_up_button'), ('click', 'Cv_up_button'), ('click', 'Cv_down_button')]):
+                [('Cv_input', '0.498'), ('click', 'Cv_up_button'), ('click', 'Cv_up_button'), ('click', 'Cv_down_button')],
+                # the operating-point boxes of the System tab follow an edit of the grading alone
+                [('D85_input', '8.000 [system boxes]'), ('D15_input', '0.300 [system boxes]')]) + tuple(
+                # after another pipeline is selected the density box is range-checked against the slurry that is selected NOW (solids density changed first)
+                [('pipeline', nm_), ('rhos_input', '2.000'), ('rhom_input', '1.560'), ('rhom_input', '1.300'), ('rhos_input', '3.500'), ('rhom_input', '2.100')]
+                for nm_ in [x_ for x_ in names if x_.lower() != new_session().pipeline.name.lower()][:2]):
         main = new_session()
         log = []
         for w, txt in raw:
-            ev_ = (txt, 'click', txt) if w == 'click' else (f"{w.split('_')[0]}={txt!r}", 'text', (w, txt))
+            if w == 'pipeline':
+                ev_ = (f'pipeline={txt!r}', 'pipeline', txt)
+            elif w == 'click':
+                ev_ = (txt, 'click', txt)
+            else:
+                ev_ = (f"{w.split('_')[0]}={txt!r}", 'text', (w, txt.replace(' [system boxes]', '')))
             if not step(ctx, main, ev_, log, edge=True):
                 break
             k += 1
